@@ -5,7 +5,8 @@
    Reading guide.  [h] is a history: kernel events (Spawn pid start ppid comm, any name | SpawnThread pid |
    Exit pid -> zombie | Reap pid | ClockStep d) interleaved with psutil calls (Process(pid), is_running, ==, hash, every signal method and
    setter, ppid, create_time, boot_time, process_iter); [wf_hist h]: a PID is handed out only when free and two
-   starts of one PID never carry the same start tick.  [run h] is the world after [h]; object [o] is the o-th
+   starts of one PID never carry the same start tick, and /proc/<pid>/stat is readable (no Deny event: with an
+   unreadable stat file psutil has no identity to compare, see Properties/C02.v).  [run h] is the world after [h]; object [o] is the o-th
    Process object created in [h]; [g_inc w o] is the incarnation (process start) it was created for (ghost);
    [alive w i]: incarnation i is in the process table (zombie included); [owner w p]: the incarnation that
    would receive a system call aimed at PID p now.  [Set_ o s] is a signal or setter call [s] on object [o]
